@@ -48,7 +48,7 @@ func main() {
 		of.Close()
 		bf.Close()
 		if *statsPath != "" {
-			for k, v := range envStats {
+			for k, v := range g.s.envStats {
 				g.stats[k] += v
 			}
 			var ks []string
